@@ -64,19 +64,22 @@ def handle (op : String) (ins outs : List String) : List Out :=
     let iv : List FV := ins.map (fun s => ⟨parseHex s⟩)
     let ov : List FV := outs.map (fun s => ⟨parseHex s⟩)
     let (w1, w2, w3, w4, q) := (pt iv 0, pt iv 2, pt iv 4, pt iv 6, pt iv 8)
-    let t := nearest_t w1 w2 w3 w4 q
-    let its := loopIterations 6 (distance_in_bezier_form w1 w2 w3 w4 q)
-    let p := curve_nearest_point nearest_t w1 w2 w3 w4 q
-    let d := curve_distance_to nearest_t w1 w2 w3 w4 q
+    -- everything generated, incl. the Bézier form (`gen_distance_in_bezier_form`); the hand model of the Bézier form is run alongside
+    let t := nearest_t_gen w1 w2 w3 w4 q
+    let th := nearest_t w1 w2 w3 w4 q
+    let its := loopIterations 6 (gen_distance_in_bezier_form w1 w2 w3 w4 q)
+    let p := curve_nearest_point nearest_t_gen w1 w2 w3 w4 q
+    let d := curve_distance_to nearest_t_gen w1 w2 w3 w4 q
     [flag "loop_iterations<=2000" (its ≤ 2000) s!"the loop needs {its} iterations (fuel of the generated loop: 100000)",
      bit "nearest_point_on_curve_bezier_root_finder" t (ov.getD 0 default), bit "nearest_t" t (ov.getD 1 default),
+     bit "nearest_t(hand model of the Bezier form)" th (ov.getD 1 default),
      bit "nearest_point.x" p.x (ov.getD 2 default), bit "nearest_point.y" p.y (ov.getD 3 default),
      bit "distance_to" d (ov.getD 4 default)]
   | "quintic" =>
     -- ins: w1 w2 w3 w4 q ; outs: (x y)*6 of distance_in_bezier_form (hook H3)
     let iv : List FV := ins.map (fun s => ⟨parseHex s⟩)
     let ov : List FV := outs.map (fun s => ⟨parseHex s⟩)
-    let c := distance_in_bezier_form (pt iv 0) (pt iv 2) (pt iv 4) (pt iv 6) (pt iv 8)
+    let c := gen_distance_in_bezier_form (pt iv 0) (pt iv 2) (pt iv 4) (pt iv 6) (pt iv 8)
     flag "number_of_points" (c.length == 6 && ov.length == 12) s!"model has {c.length} points, implementation {ov.length / 2}" ::
       (List.range 6).flatMap (fun i => [bit s!"x{i}" (c.getD i default).x (ov.getD (2 * i) default),
                                          bit s!"y{i}" (c.getD i default).y (ov.getD (2 * i + 1) default)])
@@ -89,7 +92,7 @@ def handle (op : String) (ins outs : List String) : List Out :=
     let q := pt iv (8 * n)
     let idx := parseNat (outs.headD "0")
     let ov : List FV := (outs.drop 1).map (fun s => ⟨parseHex s⟩)
-    let r := path_closest curves q
+    let r := path_closest_gen curves q
     [flag "curve_index" (r.t0 == idx) s!"model index {r.t0}, implementation {idx}",
      bit "t" r.t1 (ov.getD 0 default), bit "distance" r.t2 (ov.getD 1 default),
      bit "point.x" r.t3.x (ov.getD 2 default), bit "point.y" r.t3.y (ov.getD 3 default)]
